@@ -5,13 +5,13 @@ import json
 import os
 import time
 
-from common import (SCRATCH, HarnessError, Pool, Report, alpha_rename, bin_path, build, load_known, log,
+from common import (SCRATCH, MOUNT_BASE, HarnessError, Pool, Report, alpha_rename, bin_path, build, load_known, log,
                     norm_text, run_json, sha, write_evidence, write_replay, PY_EXE)
 from rng import SplitMix
 
 SIMELS = bin_path("simels")
-MOUNT_WS = os.path.join(SCRATCH, "mnt")
-MOUNT_ERG = os.path.join(SCRATCH, "ergmnt")
+MOUNT_WS = os.path.join(MOUNT_BASE, "mnt")
+MOUNT_ERG = os.path.join(MOUNT_BASE, "ergmnt")
 
 COMPONENTS_REAL = [
     "els::Server: dispatcher, 26 request worker threads, auto-diagnostics poller, workspace-diagnostics thread, "
@@ -702,9 +702,15 @@ def gen_c29(seed, idx):
     cur = {n: list(docs[n]) for n in names}
     think = [0, 0, 0, 1, 20, 100, 300, 450, 500, 520, 600, 900, 2000]
     history = []        # (doc, line index, previous text) of modifications, for `undo`
+    # On the unchanged tree an edit that reaches the server before the polling thread has seen the
+    # document is never analysed (known finding C29-edit-before-first-poll-never-analysed): one
+    # history in ten starts editing at once, the others after two poll periods.
+    early_edit = r.chance(0.1)
     for n in (["b.er", "a.er"] if two else ["a.er"]):
         events.append(["open", n, "\n".join(cur[n]) + "\n"])
         events.append(["wait", r.pick(think)])
+    if not early_edit:
+        events.append(["wait", 1100])
     for _ in range(r.range(1, 8)):
         n = r.pick(names)
         lines = cur[n]
@@ -864,20 +870,25 @@ def c29_judge(hist, work, res, fresh_res):
             bad.append({"clause": "diagnostics_duplicated", "doc": name,
                         "detail": json.dumps({"n_history": len(a), "n_fresh": len(b), "distinct": len(sa)})})
     if bad:
-        ev = run_evidence(res)
+        ev = run_evidence(res, hist)
         for b_ in bad:
             b_.update(ev)
     return bad
 
 
-def run_evidence(res):
+def run_evidence(res, hist=None):
     """what the probes say about this run: did two analyses overlap, did a didSave take the
-    'nothing changed' short-cut"""
+    'nothing changed' short-cut, did the polling thread see a document for the first time at its
+    final, already edited version (which it then records as checked)"""
     depth = {}
     overlapped = False
     skipped = 0
+    first_seen = {}
     for name, data in res.get("probe_log", []):
         thread = data.rsplit(" @", 1)[-1]
+        if name == "auto_diag_first_seen":
+            uri, ver = data.rsplit(" @", 1)[0].rsplit(" ", 1)
+            first_seen.setdefault(uri.rsplit("/", 1)[-1], int(ver))
         if name == "check_file_begin":
             if any(v > 0 for t, v in depth.items() if t != thread):
                 overlapped = True
@@ -886,7 +897,16 @@ def run_evidence(res):
             depth[thread] = max(0, depth.get(thread, 0) - 1)
         elif name == "recheck_skipped_no_change":
             skipped += 1
-    return {"checks_overlapped": overlapped, "recheck_skipped": skipped > 0}
+    unchecked = False
+    if hist is not None:
+        final_ver = {}
+        for e in hist["events"]:
+            if e[0] == "open":
+                final_ver[e[1]] = 1
+            elif e[0] == "change":
+                final_ver[e[1]] += e[2]
+        unchecked = any(v > 1 and first_seen.get(n) == v for n, v in final_ver.items())
+    return {"checks_overlapped": overlapped, "recheck_skipped": skipped > 0, "unchecked_first_sight": unchecked}
 
 
 def c29_explore_one(seed, idx, w, d):
@@ -955,14 +975,21 @@ def c29_minimise(seed, idx, hist, bad, w, d, budget_s):
         h["events"] = [e for i, e in enumerate(hist["events"]) if e[0] == "open" or i in keep]
         return h
 
+    # a reduction must not slide into the first-sight defect (dropping the wait after didOpen makes
+    # any history an instance of it) - nor out of it
+    first_sight = all(b_.get("unchecked_first_sight") for b_ in bad)
+
+    def same_failure(h):
+        ok, b = c29_fails(seed, idx, h, w, d, sig)
+        return ok and all(b_.get("unchecked_first_sight") for b_ in b) == first_sight, b
+
     def test(sub):
         h = rebuild(sub)
-        return valid_c29(h) and c29_fails(seed, idx, h, w, d, sig)[0]
+        return valid_c29(h) and same_failure(h)[0]
 
     kept = ddmin(rest, test, max_tests=budget_s)
     h = rebuild(kept)
-    # shrink the opened text: drop lines that no change touches (from the end)
-    ok, b = c29_fails(seed, idx, h, w, d, sig)
+    ok, b = same_failure(h)
     if not ok:
         return hist, bad, sig
     return h, b, sig_of(b)
@@ -992,6 +1019,7 @@ def c29_predicates(hist):
         "only_under_preemption": bool(hist.get("only_under_preemption")),
         "checks_overlapped": bool(hist.get("checks_overlapped")),
         "recheck_skipped": bool(hist.get("recheck_skipped")),
+        "unchecked_first_sight": bool(hist.get("unchecked_first_sight")),
     }
 
 
@@ -1063,6 +1091,7 @@ def run_c29(tier, seed, replay=None):
             m["hist"]["only_under_preemption"] = m["only_under_preemption"]
             m["hist"]["checks_overlapped"] = all(b_.get("checks_overlapped") for b_ in m["bad"])
             m["hist"]["recheck_skipped"] = all(b_.get("recheck_skipped") for b_ in m["bad"])
+            m["hist"]["unchecked_first_sight"] = all(b_.get("unchecked_first_sight") for b_ in m["bad"])
             e = c29_match_known(m["hist"], m["sig"], m["bad"], known)
             if e:
                 report.known(e, replay={"engine": "simels", "verif_seed": seed, "history_index": m["idx"],
@@ -1080,6 +1109,15 @@ def run_c29(tier, seed, replay=None):
                                         "expect": {"clauses": m["sig"], "first": m["bad"][0]}})
             report.violation(f'clauses={m["sig"]} preds={c29_predicates(m["hist"])} first={json.dumps(m["bad"][0])[:500]}', path)
         for r in failing[48:]:
+            # not minimised: classified by what the failing run itself showed (no default-schedule re-run,
+            # so the preemption-only findings cannot match here)
+            h = dict(r["hist"])
+            for key in ("checks_overlapped", "recheck_skipped", "unchecked_first_sight"):
+                h[key] = all(b_.get(key) for b_ in r["bad"])
+            e = c29_match_known(h, sig_of(r["bad"]), r["bad"], known)
+            if e:
+                report.known(e)
+                continue
             path = write_replay("C29", {"engine": "simels", "verif_seed": seed, "history_index": r["idx"],
                                         "workload": r["hist"], "schedule": sched_args(seed, "C29", r["idx"]),
                                         "expect": {"clauses": sig_of(r["bad"]), "first": r["bad"][0]}})
